@@ -200,6 +200,33 @@ func (g *Gen) bytes(n int) []byte {
 		}
 		return b
 	}
+	if n >= 3 && g.r.Intn(9) == 0 {
+		// octets that describe their own length, as the envelopes and TLVs this library carries inside opaque fields do
+		// (TS 24.502 NAS-over-TCP: 16-bit length + PDU; EAP: code, id, 16-bit length; generic TLV): the length of the
+		// rest in 1 / 2 / 4 octets (counting itself or not), then a byte from the dictionary of the source, then noise
+		g.r.Read(b)
+		w := []int{1, 2, 2, 2, 4}[g.r.Intn(5)]
+		if w >= n {
+			w = 1
+		}
+		off := 0
+		if g.chance(0.25) && n > w+2 {
+			off = 1 + g.r.Intn(2) // behind a tag octet or two
+		}
+		val := n - off - w
+		if g.chance(0.3) {
+			val = n - off // the field counts itself
+		}
+		for i := 0; i < w; i++ {
+			b[off+i] = byte(val >> (8 * uint(w-1-i)))
+		}
+		if off+w < n {
+			if v, ok := g.dictInt(8); ok {
+				b[off+w] = byte(v)
+			}
+		}
+		return b
+	}
 	if n >= 4 && g.r.Intn(10) == 0 { // a piece of an earlier encoding somewhere inside
 		if f, ok := g.poolFrag(4 + g.r.Intn(n-3)); ok {
 			if g.chance(0.5) {
